@@ -15,7 +15,7 @@ Fixpoint assoc_z {X} (k : Z) (m : list (Z * X)) : option X :=
   end.
 
 (* mapper styles of the harness *)
-Inductive mstyle := MNone | MHarness | MDoc | MFs.
+Inductive mstyle := MNone | MHarness | MDoc | MFs | MDw.
 
 (* --- the harness' serialize mapper (callback or method of a derived class):
    str data is left alone, other data adds the members recorded in [payload]
@@ -23,8 +23,11 @@ Inductive mstyle := MNone | MHarness | MDoc | MFs.
 Definition ser_tab (payload : list (Z * dict)) : info -> dict -> dict :=
   fun i d => if i_isstr i then d
              else match assoc_z (i_obj i) payload with Some p => dupdate d p | None => d end.
+(* DictWrapper.serialize_mapper (common.py): the entry IS a copy of the wrapped dict (the dict it is handed is dropped) *)
+Definition ser_dw (payload : list (Z * dict)) : info -> dict -> dict :=
+  fun i d => match assoc_z (i_obj i) payload with Some p => p | None => d end.
 Definition ser_of (m : mstyle) (payload : list (Z * dict)) : info -> dict -> dict :=
-  match m with MNone => default_ser | _ => ser_tab payload end.
+  match m with MNone => default_ser | MDw => ser_dw payload | _ => ser_tab payload end.
 
 Definition k_t := t_ "t"%string.
 Definition k_v := t_ "v"%string.
@@ -98,6 +101,7 @@ Definition deser_of (m : mstyle) (c : cls) (shash : text -> Z) (hashes : list (Z
   | MHarness => deser_tab shash hashes
   | MDoc => deser_doc hashes
   | MFs => deser_fs names hashes
+  | MDw => fun idx _ => Ok (DV false (name_at names idx) (hash_at hashes idx))   (* the object built by DictWrapper.deserialize_mapper *)
   end.
 
 (* storage options of one save *)
